@@ -1019,7 +1019,7 @@ postfixexpr(struct scope *s, struct expr *r)
 			r = mkbinaryexpr(&tok.loc, TADD, exprconvert(r, &typeulong), mkconstexpr(&typeulong, offset));
 			r->type = mkpointertype(m->type, tq | m->qual);
 			r = mkunaryexpr(TMUL, r);
-			r->lvalue = lvalue;
+			(r->decayed ? r->base : r)->lvalue = lvalue;
 			if (m->bits.before || m->bits.after) {
 				e = mkexpr(EXPRBITFIELD, r->type, r);
 				e->qual = r->qual;
